@@ -59,16 +59,22 @@ func reverseWithOptions(forward *NFA, anchored bool) *NFA {
 	// Allocate placeholder states for all other forward states
 	// When anchored=true, we need to identify and skip unanchored prefix states
 	unanchoredPrefixStates := make(map[StateID]bool)
-	if anchored && fwdStartUnanchored != fwdStartAnchored {
+	// prefixLoopStates is the unanchored prefix (.*?) whether or not it is skipped:
+	// edges out of it never belong to the pattern proper.
+	prefixLoopStates := make(map[StateID]bool)
+	if fwdStartUnanchored != fwdStartAnchored {
 		// Find states that are part of the unanchored prefix (.*?)
 		// These are states reachable from startUnanchored but not from startAnchored
-		unanchoredPrefixStates = findUnanchoredPrefixStates(forward, fwdStartAnchored, fwdStartUnanchored)
+		prefixLoopStates = findUnanchoredPrefixStates(forward, fwdStartAnchored, fwdStartUnanchored)
+		if anchored {
+			unanchoredPrefixStates = prefixLoopStates
+		}
 	}
 	allocatePlaceholders(forward, builder, reverseEdges, revStateMap, unanchoredPrefixStates)
 
 	// PASS 2: Fill in actual transitions
 	// Pass anchored flag and skipStates to skip unanchored prefix
-	fillAllTransitions(forward, builder, reverseEdges, fwdStartAnchored, fwdStartUnanchored, reverseMatchID, revStateMap, anchored, unanchoredPrefixStates)
+	fillAllTransitions(forward, builder, reverseEdges, fwdStartAnchored, fwdStartUnanchored, reverseMatchID, revStateMap, anchored, unanchoredPrefixStates, prefixLoopStates)
 
 	// Build reverse start states from forward match states
 	forwardMatchIDs := collectMatchStates(forward)
@@ -234,7 +240,7 @@ func findLoopStates(nfa *NFA, start, target StateID, result map[StateID]bool) {
 
 // fillAllTransitions fills in actual transitions for all states
 // When forAnchored is true, skip the unanchored prefix states entirely
-func fillAllTransitions(forward *NFA, builder *Builder, reverseEdges map[StateID][]reverseEdge, fwdAnchored, fwdUnanchored, matchID StateID, revStateMap map[StateID]StateID, forAnchored bool, skipStates map[StateID]bool) {
+func fillAllTransitions(forward *NFA, builder *Builder, reverseEdges map[StateID][]reverseEdge, fwdAnchored, fwdUnanchored, matchID StateID, revStateMap map[StateID]StateID, forAnchored bool, skipStates, prefixLoop map[StateID]bool) {
 	for it := forward.Iter(); it.HasNext(); {
 		state := it.Next()
 		fwdID := state.ID()
@@ -259,7 +265,7 @@ func fillAllTransitions(forward *NFA, builder *Builder, reverseEdges map[StateID
 		edges := reverseEdges[fwdID]
 
 		if isStart && hasIncoming {
-			fillStartStateWithIncoming(builder, revID, edges, revStateMap, matchID)
+			fillStartStateWithIncoming(builder, revID, edges, revStateMap, matchID, prefixLoop)
 		} else {
 			fillReverseState(builder, revID, edges, revStateMap)
 		}
@@ -402,46 +408,43 @@ func fillReverseState(builder *Builder, revID StateID, edges []reverseEdge, revS
 
 // fillStartStateWithIncoming handles forward start states that have incoming edges (loops)
 // The proxy state is already an epsilon -> match, but we need to add the loop transitions
-func fillStartStateWithIncoming(builder *Builder, proxyID StateID, edges []reverseEdge, revStateMap map[StateID]StateID, matchID StateID) {
+func fillStartStateWithIncoming(builder *Builder, proxyID StateID, edges []reverseEdge, revStateMap map[StateID]StateID, matchID StateID, prefixLoop map[StateID]bool) {
 	// The proxy is currently epsilon -> match
 	// If we have incoming edges (from loops), we need to create a split:
 	// proxyID: split -> (transitions from incoming edges), match
 
-	// Collect targets from incoming edges
-	var loopTargets []StateID
+	// Keep only edges that belong to the pattern proper: the source state must
+	// exist in the reverse NFA, and edges coming out of the unanchored prefix
+	// (.*?) are not part of any match (walking them backward would extend the
+	// match start to the left without bound).
+	var incoming []reverseEdge
 	for _, edge := range edges {
-		if revTarget, ok := revStateMap[edge.from]; ok {
-			loopTargets = append(loopTargets, revTarget)
+		if prefixLoop[edge.from] {
+			continue
+		}
+		if _, ok := revStateMap[edge.from]; ok {
+			incoming = append(incoming, edge)
 		}
 	}
 
-	if len(loopTargets) == 0 {
+	if len(incoming) == 0 {
 		// No actual targets, keep the epsilon -> match
 		return
 	}
 
-	// We need to convert the proxy into a split that goes to both:
-	// 1. The loop targets (to continue matching)
-	// 2. The match state (to accept)
+	// The proxy becomes a split that goes to both:
+	// 1. a state carrying the reversed incoming edges WITH their labels (a
+	//    byte-labeled edge into the start state, as in the loop of `a*b`, must
+	//    still consume that byte when walking backward), and
+	// 2. the match state (to accept)
+	inner := allocatePlaceholder(builder, incoming)
+	fillReverseState(builder, inner, incoming, revStateMap)
 
-	// For a single loop target: split -> loopTarget, match
-	// For multiple loop targets: split -> split(targets...), match
-	if len(loopTargets) == 1 {
-		// Change proxy from epsilon to split
-		s := &builder.states[proxyID]
-		s.kind = StateSplit
-		s.left = loopTargets[0]
-		s.right = matchID
-		s.next = InvalidState // Clear epsilon target
-	} else {
-		// Multiple loop targets - build a chain
-		loopChain := buildSplitChain(builder, loopTargets)
-		s := &builder.states[proxyID]
-		s.kind = StateSplit
-		s.left = loopChain
-		s.right = matchID
-		s.next = InvalidState
-	}
+	s := &builder.states[proxyID]
+	s.kind = StateSplit
+	s.left = inner
+	s.right = matchID
+	s.next = InvalidState // Clear epsilon target
 }
 
 // fillEpsilonState fills a state for pure epsilon transitions
